@@ -108,9 +108,9 @@ def work(chunk):
             g2 = m.group(2)
             num = float(m.group(3))
             suf = g2[len(m.group(3)):]
-            unit = {'': 1, 'h': 1, 'H': 1, 'K': 1000, 'M': 1609}[suf]
-            exp = legs * int(unit * num)
-            if d != exp:
+            unit = {'': 1, 'h': 1, 'H': 1, 'm': 1, 'K': 1000, 'k': 1000, 'M': 1609}.get(suf)      # a lower-case m is metres wherever the library reads distances
+            exp = legs * int(unit * num) if unit else None
+            if exp is not None and d != exp:
                 acc.bad('relay-distance-wrong', dict(code=c), 'get_distance(%r) = %r, legs x leg distance = %r' % (c, d, exp))
     return acc.pack()
 
